@@ -568,7 +568,10 @@ def _randoms_shape(fn):
             e, x = v.elt, v.generators[0].target.id
             below = assigned_value(fn, e.orelse.id) if isinstance(e.orelse, ast.Name) else [e.orelse]
             if unparse(e.body) == x and canon(unparse(e.test)) == canon(f"{x} < max") and len(below) == 1 and unparse(below[0]) in ("math.nextafter(max, min)", "nextafter(max, min)") \
-                    and any(canon(f"min != 0") in canon(t) and p for t, p in g):
+                    and g and all(p and {canon(unparse(cj)) for cj in (ast.parse(t, mode="eval").body.values if isinstance(ast.parse(t, mode="eval").body, ast.BoolOp) and isinstance(ast.parse(t, mode="eval").body.op, ast.And) else [ast.parse(t, mode="eval").body])}
+                                  <= {canon("min != 0"), canon("n is not None")} for t, p in g) and any(canon("min != 0") in canon(t) for t, p in g):
+                # the guard may only skip the pass where the shift stage was skipped too (min == 0) or nothing was materialised: any further narrowing
+                # (e.g. by the width of the range) leaves rounded sums equal to max un-clamped
                 kind = "round-guard"
         stages.append((kind, unparse(v)[:70], g))
     d["stages"] = stages
@@ -752,6 +755,7 @@ def r6_generator_ownership(ctx, rule="C05.R6"):
 
 
 CONTROLS = [
+    ("randoms clamps only very narrow ranges", RND, M.replace_expr("CobaRandom.randoms", "min != 0 and n is not None", "min != 0 and n is not None and diff < abs(max) * 2 ** (-30)"), "C05.R3"),
     ("weighted choice through the bound float.__lt__", RND, M.replace_expr("CobaRandom.choice", "partial(lt, next(self._randu) * tot)", "(next(self._randu) * tot).__lt__"), "C05.R3"),
     ("re-wrapping carries on with the inner wrapper's generator", "coba/safety.py", M.replace_expr("SafeLearner.__init__", "CobaRandom(seed)", "learner._rng if isinstance(learner, SafeLearner) else CobaRandom(seed)"), "C05.R6"),
     ("shuffle early return of the input", RND, M.replace_stmt("CobaRandom.shuffle", M.text_has("if n < 2"), "if n < 2:\n    return items"), "C05.R3"),
